@@ -191,6 +191,8 @@ def gen(rng, nrng, tier):
         NW = [1.5, 2.0, 2.5, 3.0, 4.0][i % 5]
         kmax = int(2 * NW)
         k = [None, kmax, max(2, kmax - 1), 2][i % 4]
+        if i % 9 == 4 and methods[i % 3] != "adapt":
+            k = 1            # a single taper
         nfft = [N, N + 1, 2 * N, 2 * N + 1, N + 7][i % 5]
         yield ("pmtm", {"x": x if dk != "list" else [complex(t) if cplx else float(t) for t in x], "NW": NW, "k": k,
                         "nfft": nfft, "method": methods[i % 3], "supplied": bool(i % 2), "dkind": dk})
